@@ -1044,6 +1044,21 @@ static unsigned long proc_cpu_ms(pid_t pid)
     return (ut + stt) * 1000UL / (unsigned long)hz;
 }
 
+/* kernel's view of a thread: 'S' sleeping, 'D' disk sleep, 'R' runnable, 't' tracing stop ... */
+static char task_state(pid_t pid, pid_t tid)
+{
+    char pp[96], buf[512];
+    snprintf(pp, sizeof pp, "/proc/%d/task/%d/stat", pid, tid);
+    int fd = open(pp, O_RDONLY);
+    if (fd < 0) return '?';
+    ssize_t n = read(fd, buf, sizeof buf - 1); close(fd);
+    if (n <= 0) return '?';
+    buf[n] = 0;
+    char *rp = strrchr(buf, ')');
+    return (rp && rp[1] == ' ') ? rp[2] : '?';
+}
+static unsigned long deadlock_vetoes = 0;
+
 static void on_tick(int sig) { (void)sig; tick = 1; }
 
 static void write_summary(const char *fn, int exited, int status, int sig)
@@ -1056,7 +1071,7 @@ static void write_summary(const char *fn, int exited, int status, int sig)
     fprintf(f, ",\"stops\":%lu,\"events\":%lu,\"fd_peak\":%d,\"fd_checks\":%lu,\"fd_mismatch\":%d", nstops, seq, fd_peak, fd_checks, fd_mismatch);
     fprintf(f, ",\"emfile\":%lu,\"opens\":%lu", n_emfile, n_opens);
     fprintf(f, ",\"killed_by_plan\":%d,\"kill_site\":", kill_delivered); json_str(f, kill_site);
-    fprintf(f, ",\"sched_steps\":%lu,\"holds\":%lu,\"cap_releases\":%lu,\"gate_timeouts\":%lu", sched_steps, holds, cap_releases, gate_timeouts);
+    fprintf(f, ",\"sched_steps\":%lu,\"holds\":%lu,\"cap_releases\":%lu,\"gate_timeouts\":%lu,\"deadlock_vetoes\":%lu", sched_steps, holds, cap_releases, gate_timeouts, deadlock_vetoes);
     fprintf(f, ",\"wall_ms\":%.1f", ts_ms(&t_start, &tn));
     fprintf(f, ",\"rules\":{");
     for (int i = 0; i < nrules; i++)
@@ -1218,6 +1233,16 @@ int main(int argc, char **argv)
                 if (!quiet) { quiet = 1; quiet_since = tn; cpu_at_quiet = cpu; }
                 else if (cpu != cpu_at_quiet || ts_ms(&quiet_since, &t_last_event) > 0) { quiet_since = tn; cpu_at_quiet = cpu; }
                 else if (ts_ms(&quiet_since, &tn) > p_deadlock_ms) {
+                    /* only a process whose threads the kernel, too, reports as sleeping is deadlocked: a runnable thread is
+                       merely starved of CPU, a thread in a tracing stop has an event we have not consumed yet */
+                    int veto = 0;
+                    for (int k = 0; k < MAXTHREADS; k++) {
+                        struct thr *t = &thr[k];
+                        if (t->state == T_FREE || t->state == T_DEAD) continue;
+                        char c = task_state(root_pid, t->tid);
+                        if (c != 'S' && c != 'D') veto = 1;
+                    }
+                    if (veto) { deadlock_vetoes++; quiet_since = tn; continue; }
                     verdict = "deadlock";
                     snprintf(verdict_detail, sizeof verdict_detail, "all %d live threads in untimed blocking calls, no event and no cpu for %ld ms", live, p_deadlock_ms);
                     /* snapshot thread states before killing */
